@@ -1043,7 +1043,7 @@ func check(c *core.Ctx, cs c11Case) (bucket string, nontrivial bool) {
 	defer setSwitches("")
 	defer func() {
 		if r := recover(); r != nil {
-			c.Violation("panic", fmt.Sprintf("%s: the library panicked: %v", bucket, core.Trunc(fmt.Sprint(r), 300)), cs)
+			violation(c, "panic", fmt.Sprintf("%s: the library panicked: %v", bucket, core.Trunc(fmt.Sprint(r), 300)), cs)
 		}
 	}()
 	b, err := build(cs)
@@ -1069,7 +1069,7 @@ func check(c *core.Ctx, cs c11Case) (bucket string, nontrivial bool) {
 	for _, rg := range srcs {
 		rows, err := readAll(rg.Rows())
 		if err != nil {
-			c.Violation("source-read-error", fmt.Sprintf("%s: reading the rows of the source failed: %v", bucket, err), cs)
+			violation(c, "source-read-error", fmt.Sprintf("%s: reading the rows of the source failed: %v", bucket, err), cs)
 			return bucket, false
 		}
 		perSrc = append(perSrc, rows)
@@ -1079,12 +1079,12 @@ func check(c *core.Ctx, cs c11Case) (bucket string, nontrivial bool) {
 		return "empty", false
 	}
 	if strings.HasPrefix(cs.Src, "convert") {
-		// rows a conversion delivers with a shape the target schema does not allow (an added
-		// non-repeated column mirroring a repeated sibling) belong to C12; reported to the main session
-		for _, r := range want {
+		// the rows a conversion delivers must have the shape of the target schema (one value in
+		// a column that is not repeated): otherwise there is nothing to compare a written file with
+		for i, r := range want {
 			if !rowWellFormed(b.root, r) {
-				malformedSourceRows++
-				return "out-of-scope:malformed-rows-from-conversion", false
+				violation(c, "conversion-delivers-malformed-rows", fmt.Sprintf("%s: row %d delivered by ConvertRowGroup(...).Rows() does not have the shape of the target schema %s: [%s]", bucket, i, b.root.Text(), core.Trunc(gen.CanonRow(r), 300)), cs)
+				return bucket, false
 			}
 		}
 	}
@@ -1100,13 +1100,13 @@ func check(c *core.Ctx, cs c11Case) (bucket string, nontrivial bool) {
 			inner = append(inner, r...)
 		}
 		if strings.Join(canonRows(inner), "\n") != strings.Join(canonRows(want), "\n") {
-			c.Violation("harness-foreign", "the foreign row group does not deliver the reversed rows", cs)
+			violation(c, "harness-foreign", "the foreign row group does not deliver the reversed rows", cs)
 			return bucket, false
 		}
 	case "dedup", "merge-dedup", "merge-dedup-disjoint":
 		for i := 1; i < len(want); i++ {
 			if want[i][0].Int64() == want[i-1][0].Int64() {
-				c.Violation("dedup-not-applied-by-rows", fmt.Sprintf("%s: Rows() of a deduplicating merge delivers key %d twice", bucket, want[i][0].Int64()), cs)
+				violation(c, "dedup-not-applied-by-rows", fmt.Sprintf("%s: Rows() of a deduplicating merge delivers key %d twice", bucket, want[i][0].Int64()), cs)
 				return bucket, false
 			}
 		}
@@ -1136,7 +1136,7 @@ func check(c *core.Ctx, cs c11Case) (bucket string, nontrivial bool) {
 	}
 	ref, err := openFile(refBuf.Bytes(), dst.Encrypt)
 	if err != nil {
-		c.Violation("reference-open-error", fmt.Sprintf("%s: the reference file cannot be opened: %v", bucket, err), cs)
+		violation(c, "reference-open-error", fmt.Sprintf("%s: the reference file cannot be opened: %v", bucket, err), cs)
 		return bucket, false
 	}
 	dcols := dstColumns(ref, dst)
@@ -1167,7 +1167,7 @@ func check(c *core.Ctx, cs c11Case) (bucket string, nontrivial bool) {
 		if c.HasOracle() {
 			ans := strings.Split(c.Ask(p.req), " ")
 			if len(ans) != 3 {
-				c.Mismatch("corr:C11.plan", core.Trunc(p.req, 600), "", strings.Join(ans, " "), cs)
+				mismatch(c, "corr:C11.plan", core.Trunc(p.req, 600), "", strings.Join(ans, " "), cs)
 				return bucket, false
 			}
 			if ans[0] != "_" {
@@ -1192,7 +1192,7 @@ func check(c *core.Ctx, cs c11Case) (bucket string, nontrivial bool) {
 		dc, dr := parquet.VerifCopyPathCount()-c0, parquet.VerifReencodePathCount()-r0
 		if err != nil {
 			setSwitches("")
-			c.Violation("write-error", fmt.Sprintf("%s: WriteRowGroup failed: %v", bucket, err), cs)
+			violation(c, "write-error", fmt.Sprintf("%s: WriteRowGroup failed: %v", bucket, err), cs)
 			return bucket, false
 		}
 		rowsPerCall = append(rowsPerCall, n)
@@ -1201,17 +1201,17 @@ func check(c *core.Ctx, cs c11Case) (bucket string, nontrivial bool) {
 			pathsOK = false
 		}
 		if n != int64(len(perSrc[i])) {
-			c.Violation("rows-written-count", fmt.Sprintf("%s: WriteRowGroup returned %d, the source delivers %d rows (paths %v)", bucket, n, len(perSrc[i]), implPaths), cs)
+			violation(c, "rows-written-count", fmt.Sprintf("%s: WriteRowGroup returned %d, the source delivers %d rows (paths %v)", bucket, n, len(perSrc[i]), implPaths), cs)
 		}
 	}
 	setSwitches("")
 	if err := w.Close(); err != nil {
-		c.Violation("close-error", fmt.Sprintf("%s: Close after WriteRowGroup failed: %v", bucket, err), cs)
+		violation(c, "close-error", fmt.Sprintf("%s: Close after WriteRowGroup failed: %v", bucket, err), cs)
 		return bucket, false
 	}
 	out, err := openFile(outBuf.Bytes(), dst.Encrypt)
 	if err != nil {
-		c.Violation("output-open-error", fmt.Sprintf("%s: the file written through WriteRowGroup cannot be opened: %v", bucket, err), cs)
+		violation(c, "output-open-error", fmt.Sprintf("%s: the file written through WriteRowGroup cannot be opened: %v", bucket, err), cs)
 		return bucket, false
 	}
 
@@ -1219,12 +1219,12 @@ func check(c *core.Ctx, cs c11Case) (bucket string, nontrivial bool) {
 	// (1) rows: equal and in order
 	got, err := fileRows(out)
 	if err != nil {
-		c.Violation("output-read-error", fmt.Sprintf("%s: the file written through WriteRowGroup cannot be read back: %v (paths %v)", bucket, err, implPaths), cs)
+		violation(c, "output-read-error", fmt.Sprintf("%s: the file written through WriteRowGroup cannot be read back: %v (paths %v)", bucket, err, implPaths), cs)
 		return bucket, true
 	}
 	refRows, err := fileRows(ref)
 	if err != nil {
-		c.Violation("reference-read-error", fmt.Sprintf("%s: the reference file cannot be read back: %v", bucket, err), cs)
+		violation(c, "reference-read-error", fmt.Sprintf("%s: the reference file cannot be read back: %v", bucket, err), cs)
 		return bucket, true
 	}
 	cw, cg, cr := canonRows(want), canonRows(got), canonRows(refRows)
@@ -1233,7 +1233,7 @@ func check(c *core.Ctx, cs c11Case) (bucket string, nontrivial bool) {
 		if cs.Src == "dedup" || strings.HasPrefix(cs.Src, "merge-dedup") {
 			class = "dedup-bypassed"
 		}
-		c.Violation(class, fmt.Sprintf("%s: WriteRowGroup wrote %d rows, the source's Rows() delivers %d (paths %v)", bucket, len(cg), len(cw), implPaths), cs)
+		violation(c, class, fmt.Sprintf("%s: WriteRowGroup wrote %d rows, the source's Rows() delivers %d (paths %v)", bucket, len(cg), len(cw), implPaths), cs)
 		ok = false
 	} else {
 		for i := range cw {
@@ -1245,14 +1245,14 @@ func check(c *core.Ctx, cs c11Case) (bucket string, nontrivial bool) {
 				case strings.HasPrefix(cs.Src, "convert"):
 					class = "conversion-bypassed"
 				}
-				c.Violation(class, fmt.Sprintf("%s: row %d differs: Rows() delivers [%s], the written file holds [%s] (paths %v)", bucket, i, core.Trunc(cw[i], 200), core.Trunc(cg[i], 200), implPaths), cs)
+				violation(c, class, fmt.Sprintf("%s: row %d differs: Rows() delivers [%s], the written file holds [%s] (paths %v)", bucket, i, core.Trunc(cw[i], 200), core.Trunc(cg[i], 200), implPaths), cs)
 				ok = false
 				break
 			}
 		}
 	}
 	if strings.Join(cr, "\n") != strings.Join(cw, "\n") {
-		c.Violation("reference-rows-differ", fmt.Sprintf("%s: the rows written one by one do not read back equal", bucket), cs)
+		violation(c, "reference-rows-differ", fmt.Sprintf("%s: the rows written one by one do not read back equal", bucket), cs)
 		ok = false
 	}
 	if !ok {
@@ -1272,7 +1272,7 @@ func check(c *core.Ctx, cs c11Case) (bucket string, nontrivial bool) {
 	}
 	for g, rgm := range md.RowGroups {
 		if dst.MaxRows > 0 && rgm.NumRows > dst.MaxRows {
-			c.Violation("max-rows-exceeded", fmt.Sprintf("%s: output row group %d has %d rows, MaxRowsPerRowGroup is %d (paths %v)", bucket, g, rgm.NumRows, dst.MaxRows, implPaths), cs)
+			violation(c, "max-rows-exceeded", fmt.Sprintf("%s: output row group %d has %d rows, MaxRowsPerRowGroup is %d (paths %v)", bucket, g, rgm.NumRows, dst.MaxRows, implPaths), cs)
 			ok = false
 		}
 		to := from + int(rgm.NumRows)
@@ -1287,7 +1287,7 @@ func check(c *core.Ctx, cs c11Case) (bucket string, nontrivial bool) {
 			m := ch.MetaData
 			where := fmt.Sprintf("%s: output row group %d column %d (%s)", bucket, g, ci, strings.Join(paths[ci], "."))
 			if int(m.Codec) != d.codec {
-				c.Violation("codec-not-honoured", fmt.Sprintf("%s: codec %v, the destination is configured for %v (paths %v)", where, m.Codec, format.CompressionCodec(d.codec), implPaths), cs)
+				violation(c, "codec-not-honoured", fmt.Sprintf("%s: codec %v, the destination is configured for %v (paths %v)", where, m.Codec, format.CompressionCodec(d.codec), implPaths), cs)
 				ok = false
 			}
 			sawDict := false
@@ -1297,21 +1297,21 @@ func check(c *core.Ctx, cs c11Case) (bucket string, nontrivial bool) {
 					sawDict = true
 				case format.DataPage, format.DataPageV2:
 					if int(s.PageType) != d.pageType {
-						c.Violation("page-version-not-honoured", fmt.Sprintf("%s: data pages of type %v, the destination is configured for version %d (paths %v)", where, s.PageType, dst.PageVersion, implPaths), cs)
+						violation(c, "page-version-not-honoured", fmt.Sprintf("%s: data pages of type %v, the destination is configured for version %d (paths %v)", where, s.PageType, dst.PageVersion, implPaths), cs)
 						ok = false
 					}
 					if !d.encs[int(s.Encoding)] && !(d.dict && dst.DictMaxBytes > 0 && s.Encoding == format.Plain) {
-						c.Violation("encoding-not-honoured", fmt.Sprintf("%s: data pages encoded %v, the destination writes %v (paths %v)", where, s.Encoding, encNames(d.encs), implPaths), cs)
+						violation(c, "encoding-not-honoured", fmt.Sprintf("%s: data pages encoded %v, the destination writes %v (paths %v)", where, s.Encoding, encNames(d.encs), implPaths), cs)
 						ok = false
 					}
 				}
 			}
 			if sawDict != d.dict {
-				c.Violation("dictionary-not-honoured", fmt.Sprintf("%s: dictionary page present=%v, the destination's configuration gives %v (paths %v)", where, sawDict, d.dict, implPaths), cs)
+				violation(c, "dictionary-not-honoured", fmt.Sprintf("%s: dictionary page present=%v, the destination's configuration gives %v (paths %v)", where, sawDict, d.dict, implPaths), cs)
 				ok = false
 			}
 			if d.hasCI && ch.ColumnIndexOffset == 0 || d.hasOI && ch.OffsetIndexOffset == 0 {
-				c.Violation("page-index-missing", fmt.Sprintf("%s: no column/offset index although the destination writes one (paths %v)", where, implPaths), cs)
+				violation(c, "page-index-missing", fmt.Sprintf("%s: no column/offset index although the destination writes one (paths %v)", where, implPaths), cs)
 				ok = false
 			}
 			nonNull := 0
@@ -1325,18 +1325,18 @@ func check(c *core.Ctx, cs c11Case) (bucket string, nontrivial bool) {
 			if samePartition {
 				rs := ref.Metadata().RowGroups[g].Columns[ci].MetaData.Statistics
 				if (len(rs.MinValue) > 0) != (len(m.Statistics.MinValue) > 0) || (len(rs.MaxValue) > 0) != (len(m.Statistics.MaxValue) > 0) || rs.NullCount != m.Statistics.NullCount {
-					c.Violation("statistics-differ", fmt.Sprintf("%s: statistics min=%x max=%x nulls=%d, the same rows written one by one give min=%x max=%x nulls=%d (paths %v)", where, m.Statistics.MinValue, m.Statistics.MaxValue, m.Statistics.NullCount, rs.MinValue, rs.MaxValue, rs.NullCount, implPaths), cs)
+					violation(c, "statistics-differ", fmt.Sprintf("%s: statistics min=%x max=%x nulls=%d, the same rows written one by one give min=%x max=%x nulls=%d (paths %v)", where, m.Statistics.MinValue, m.Statistics.MaxValue, m.Statistics.NullCount, rs.MinValue, rs.MaxValue, rs.NullCount, implPaths), cs)
 					ok = false
 				}
 			}
 			// bloom filter
 			if m.BloomFilterOffset != 0 && dst.BloomBits == 0 || m.BloomFilterOffset == 0 && dst.BloomBits > 0 && nonNull > 0 {
-				c.Violation("bloom-filter-not-honoured", fmt.Sprintf("%s: bloom filter present=%v, the destination is configured with BloomBits=%d (paths %v)", where, m.BloomFilterOffset != 0, dst.BloomBits, implPaths), cs)
+				violation(c, "bloom-filter-not-honoured", fmt.Sprintf("%s: bloom filter present=%v, the destination is configured with BloomBits=%d (paths %v)", where, m.BloomFilterOffset != 0, dst.BloomBits, implPaths), cs)
 				ok = false
 			} else if dst.BloomBits > 0 && m.BloomFilterOffset != 0 {
 				bf := out.RowGroups()[g].ColumnChunks()[ci].BloomFilter()
 				if bf == nil {
-					c.Violation("bloom-filter-not-honoured", fmt.Sprintf("%s: the bloom filter cannot be loaded (paths %v)", where, implPaths), cs)
+					violation(c, "bloom-filter-not-honoured", fmt.Sprintf("%s: the bloom filter cannot be loaded (paths %v)", where, implPaths), cs)
 					ok = false
 				} else {
 					if want := int64(parquet.SplitBlockFilter(uint(dst.BloomBits), paths[ci]...).Size(m.NumValues)); !dst.Encrypt && bf.Size() != want && m.NumValues > 0 {
@@ -1347,7 +1347,7 @@ func check(c *core.Ctx, cs c11Case) (bucket string, nontrivial bool) {
 						for _, v := range r {
 							if v.Column() == ci && !v.IsNull() {
 								if hit, err := bf.Check(v); err != nil || !hit {
-									c.Violation("bloom-filter-misses-value", fmt.Sprintf("%s: the bloom filter answers %v (err %v) for a value of the column (paths %v)", where, hit, err, implPaths), cs)
+									violation(c, "bloom-filter-misses-value", fmt.Sprintf("%s: the bloom filter answers %v (err %v) for a value of the column (paths %v)", where, hit, err, implPaths), cs)
 									ok = false
 									break
 								}
@@ -1364,16 +1364,16 @@ func check(c *core.Ctx, cs c11Case) (bucket string, nontrivial bool) {
 					h, hl, err := pageHeaderAt(outBuf.Bytes(), loc.Offset)
 					switch {
 					case err != nil:
-						c.Violation("offset-index-wrong", fmt.Sprintf("%s: page location %d (offset %d) does not point at a page header: %v (paths %v)", where, j, loc.Offset, err, implPaths), cs)
+						violation(c, "offset-index-wrong", fmt.Sprintf("%s: page location %d (offset %d) does not point at a page header: %v (paths %v)", where, j, loc.Offset, err, implPaths), cs)
 						ok = false
 					case h.Type != format.DataPage && h.Type != format.DataPageV2 || int64(hl)+int64(h.CompressedPageSize) != int64(loc.CompressedPageSize):
-						c.Violation("offset-index-wrong", fmt.Sprintf("%s: page location %d (offset %d, size %d) points at a %v header of %d+%d bytes (paths %v)", where, j, loc.Offset, loc.CompressedPageSize, h.Type, hl, h.CompressedPageSize, implPaths), cs)
+						violation(c, "offset-index-wrong", fmt.Sprintf("%s: page location %d (offset %d, size %d) points at a %v header of %d+%d bytes (paths %v)", where, j, loc.Offset, loc.CompressedPageSize, h.Type, hl, h.CompressedPageSize, implPaths), cs)
 						ok = false
 					case j == 0 && loc.Offset != m.DataPageOffset:
-						c.Violation("offset-index-wrong", fmt.Sprintf("%s: the first page location is %d, data_page_offset is %d (paths %v)", where, loc.Offset, m.DataPageOffset, implPaths), cs)
+						violation(c, "offset-index-wrong", fmt.Sprintf("%s: the first page location is %d, data_page_offset is %d (paths %v)", where, loc.Offset, m.DataPageOffset, implPaths), cs)
 						ok = false
 					case j > 0 && loc.Offset != locs[j-1].Offset+int64(locs[j-1].CompressedPageSize):
-						c.Violation("offset-index-wrong", fmt.Sprintf("%s: page location %d at %d does not follow location %d (paths %v)", where, j, loc.Offset, j-1, implPaths), cs)
+						violation(c, "offset-index-wrong", fmt.Sprintf("%s: page location %d at %d does not follow location %d (paths %v)", where, j, loc.Offset, j-1, implPaths), cs)
 						ok = false
 					}
 					if !ok {
@@ -1385,7 +1385,7 @@ func check(c *core.Ctx, cs c11Case) (bucket string, nontrivial bool) {
 					total += m.DataPageOffset - m.DictionaryPageOffset
 				}
 				if ok && len(locs) > 0 && total != m.TotalCompressedSize {
-					c.Violation("offset-index-wrong", fmt.Sprintf("%s: pages (and dictionary) span %d bytes, total_compressed_size is %d (paths %v)", where, total, m.TotalCompressedSize, implPaths), cs)
+					violation(c, "offset-index-wrong", fmt.Sprintf("%s: pages (and dictionary) span %d bytes, total_compressed_size is %d (paths %v)", where, total, m.TotalCompressedSize, implPaths), cs)
 					ok = false
 				}
 			}
@@ -1407,10 +1407,10 @@ func check(c *core.Ctx, cs c11Case) (bucket string, nontrivial bool) {
 					n, err = rows.ReadRows(buf)
 				}
 				if n == 1 && gen.CanonRow(buf[0]) != cw[from+int(r)] {
-					c.Violation("seek-reads-wrong-row", fmt.Sprintf("%s: output row group %d: SeekToRow(%d) then ReadRows gives [%s], row %d is [%s] (paths %v)", bucket, g, r, core.Trunc(gen.CanonRow(buf[0]), 200), r, core.Trunc(cw[from+int(r)], 200), implPaths), cs)
+					violation(c, "seek-reads-wrong-row", fmt.Sprintf("%s: output row group %d: SeekToRow(%d) then ReadRows gives [%s], row %d is [%s] (paths %v)", bucket, g, r, core.Trunc(gen.CanonRow(buf[0]), 200), r, core.Trunc(cw[from+int(r)], 200), implPaths), cs)
 					ok = false
 				} else if n != 1 && !errors.Is(err, io.EOF) {
-					c.Violation("seek-reads-wrong-row", fmt.Sprintf("%s: output row group %d: SeekToRow(%d) then ReadRows: %d rows, %v (paths %v)", bucket, g, r, n, err, implPaths), cs)
+					violation(c, "seek-reads-wrong-row", fmt.Sprintf("%s: output row group %d: SeekToRow(%d) then ReadRows: %d rows, %v (paths %v)", bucket, g, r, n, err, implPaths), cs)
 					ok = false
 				}
 				rows.Close()
@@ -1430,7 +1430,7 @@ func check(c *core.Ctx, cs c11Case) (bucket string, nontrivial bool) {
 			reqs = append(reqs, p.req)
 		}
 		if !pathsOK {
-			c.Mismatch("corr:C11.path", core.Trunc(strings.Join(reqs, " | "), 1500), strings.Join(implPaths, ","), strings.Join(modelPaths, ","), cs)
+			mismatch(c, "corr:C11.path", core.Trunc(strings.Join(reqs, " | "), 1500), strings.Join(implPaths, ","), strings.Join(modelPaths, ","), cs)
 			return bucket, true
 		}
 		// row groups of the output: one per copy / re-encode / pack action
@@ -1455,7 +1455,7 @@ func check(c *core.Ctx, cs c11Case) (bucket string, nontrivial bool) {
 				gotGroups = append(gotGroups, rgm.NumRows)
 			}
 			if fmt.Sprint(gotGroups) != fmt.Sprint(wantGroups) {
-				c.Mismatch("corr:C11.row-groups", core.Trunc(strings.Join(reqs, " | "), 1500), fmt.Sprint(gotGroups), fmt.Sprint(wantGroups), cs)
+				mismatch(c, "corr:C11.row-groups", core.Trunc(strings.Join(reqs, " | "), 1500), fmt.Sprint(gotGroups), fmt.Sprint(wantGroups), cs)
 				return bucket, true
 			}
 		}
@@ -1551,7 +1551,7 @@ func checkRebase(c *core.Ctx, cs c11Case, bucket string, fr fileRG, outRG format
 		}
 		impl := fmt.Sprintf("%s %s %s", core.Zs(o.DictionaryPageOffset), core.Zs(o.DataPageOffset), gt)
 		if ans := c.Ask(req); ans != impl {
-			c.Mismatch("corr:C11.rebase", req, impl, ans, cs)
+			mismatch(c, "corr:C11.rebase", req, impl, ans, cs)
 			return false
 		}
 	}
@@ -1566,7 +1566,7 @@ func checkRebase(c *core.Ctx, cs c11Case, bucket string, fr fileRG, outRG format
 func checkBatches(c *core.Ctx, cs c11Case) bool {
 	defer func() {
 		if r := recover(); r != nil {
-			c.Violation("panic", fmt.Sprintf("batches: the library panicked: %v", core.Trunc(fmt.Sprint(r), 300)), cs)
+			violation(c, "panic", fmt.Sprintf("batches: the library panicked: %v", core.Trunc(fmt.Sprint(r), 300)), cs)
 		}
 	}()
 	b, err := build(cs)
@@ -1591,29 +1591,29 @@ func checkBatches(c *core.Ctx, cs c11Case) bool {
 	w := parquet.NewGenericWriter[any](&outBuf, append([]parquet.WriterOption{b.srcRoot.ParquetSchema()}, dst.writerOptions(b.srcRoot, nil)...)...)
 	r0 := parquet.VerifReencodePathCount()
 	if _, err := w.WriteRowGroup(src); err != nil {
-		c.Violation("write-error", fmt.Sprintf("batches: WriteRowGroup failed: %v", err), cs)
+		violation(c, "write-error", fmt.Sprintf("batches: WriteRowGroup failed: %v", err), cs)
 		return false
 	}
 	if err := w.Close(); err != nil {
-		c.Violation("close-error", fmt.Sprintf("batches: Close failed: %v", err), cs)
+		violation(c, "close-error", fmt.Sprintf("batches: Close failed: %v", err), cs)
 		return false
 	}
 	if parquet.VerifReencodePathCount()-r0 != 1 {
-		c.Mismatch("corr:C11.batches-path", "file-backed source, another codec", fmt.Sprint(parquet.VerifReencodePathCount()-r0), "1", cs)
+		mismatch(c, "corr:C11.batches-path", "file-backed source, another codec", fmt.Sprint(parquet.VerifReencodePathCount()-r0), "1", cs)
 		return false
 	}
 	out, err := openFile(outBuf.Bytes(), false)
 	if err != nil {
-		c.Violation("output-open-error", fmt.Sprintf("batches: the re-encoded file cannot be opened: %v", err), cs)
+		violation(c, "output-open-error", fmt.Sprintf("batches: the re-encoded file cannot be opened: %v", err), cs)
 		return false
 	}
 	got, err := fileRows(out)
 	if err != nil {
-		c.Violation("output-read-error", fmt.Sprintf("batches: the re-encoded file cannot be read back: %v", err), cs)
+		violation(c, "output-read-error", fmt.Sprintf("batches: the re-encoded file cannot be read back: %v", err), cs)
 		return false
 	}
 	if strings.Join(canonRows(got), "\n") != strings.Join(canonRows(b.rows), "\n") {
-		c.Violation("rows-differ", "batches: the re-encoded file does not hold the rows of the source", cs)
+		violation(c, "rows-differ", "batches: the re-encoded file does not hold the rows of the source", cs)
 		return false
 	}
 	ok := true
@@ -1645,7 +1645,7 @@ func checkBatches(c *core.Ctx, cs c11Case) bool {
 		// predicate: no page of the output starts inside a row
 		for j, reps := range outReps {
 			if len(reps) > 0 && reps[0] != 0 {
-				c.Violation("page-starts-mid-row", fmt.Sprintf("batches: column %d: page %d of the re-encoded file starts at repetition level %d", ci, j, reps[0]), cs)
+				violation(c, "page-starts-mid-row", fmt.Sprintf("batches: column %d: page %d of the re-encoded file starts at repetition level %d", ci, j, reps[0]), cs)
 				return false
 			}
 		}
@@ -1668,7 +1668,7 @@ func checkBatches(c *core.Ctx, cs c11Case) bool {
 			req := fmt.Sprintf("c11.batches %s 1024 %s %s", repeated, strings.Join(pages, ","), strings.Join(reps, ","))
 			ans := c.Ask(req)
 			if ans != strings.Join(cuts, ",") {
-				c.Mismatch("corr:C11.batches", core.Trunc(req, 400), strings.Join(cuts, ","), ans, cs)
+				mismatch(c, "corr:C11.batches", core.Trunc(req, 400), strings.Join(cuts, ","), ans, cs)
 				ok = false
 			} else if ci == 1 && len(reps) <= 2600 && len(vmBatches) < 12 {
 				vmBatches = append(vmBatches, fmt.Sprintf("(%s, [%s], [%s], [%s])", "true", strings.Join(pages, "; "), strings.Join(reps, "; "), strings.Join(cuts, "; ")))
@@ -1679,7 +1679,32 @@ func checkBatches(c *core.Ctx, cs c11Case) bool {
 }
 
 var vmBatches []string
-var malformedSourceRows int
+
+// the class of the first failure reported by the check in progress: the
+// shrinkers keep a smaller case only when it fails in the same way
+var failClass string
+
+func violation(c *core.Ctx, class, what string, replay any) {
+	if failClass == "" {
+		failClass = class
+	}
+	c.Violation(class, what, replay)
+}
+
+func mismatch(c *core.Ctx, corr, cs, impl, model string, replay any) {
+	if failClass == "" {
+		failClass = corr
+	}
+	c.Mismatch(corr, cs, impl, model, replay)
+}
+
+func probeClass(c *core.Ctx, f func()) string {
+	failClass = ""
+	c.Probe(f)
+	r := failClass
+	failClass = ""
+	return r
+}
 var vmPlans []string
 
 // ---- running ----
@@ -1687,29 +1712,35 @@ var vmPlans []string
 func runCase(c *core.Ctx, cs c11Case, sample bool) {
 	var bucket string
 	var nontrivial bool
-	if c.Probe(func() { bucket, nontrivial = check(c, cs) }) {
+	if class := probeClass(c, func() { bucket, nontrivial = check(c, cs) }); class != "" {
+		fails := func(t c11Case) bool { return probeClass(c, func() { check(c, t) }) == class }
 		for cs.Gen.NRows > 1 {
 			t := cs
 			t.Gen.NRows = cs.Gen.NRows / 2
-			if c.Probe(func() { check(c, t) }) {
-				cs = t
-			} else {
+			if !fails(t) {
 				break
 			}
+			cs = t
 		}
 		for i := 0; i < 40 && cs.Gen.NRows > 1; i++ {
 			t := cs
 			t.Gen.NRows--
-			if c.Probe(func() { check(c, t) }) {
-				cs = t
-			} else {
+			if !fails(t) {
 				break
 			}
+			cs = t
 		}
 		if cs.Parts > 2 {
 			t := cs
 			t.Parts = 2
-			if c.Probe(func() { check(c, t) }) {
+			if fails(t) {
+				cs = t
+			}
+		}
+		if cs.Switch != "" {
+			t := cs
+			t.Switch = ""
+			if fails(t) {
 				cs = t
 			}
 		}
@@ -1723,24 +1754,23 @@ func runCase(c *core.Ctx, cs c11Case, sample bool) {
 }
 
 func runBatches(c *core.Ctx, cs c11Case) {
-	if c.Probe(func() { checkBatches(c, cs) }) {
+	if class := probeClass(c, func() { checkBatches(c, cs) }); class != "" {
+		fails := func(t c11Case) bool { return probeClass(c, func() { checkBatches(c, t) }) == class }
 		for cs.Gen.NRows > 1 {
 			t := cs
 			t.Gen.NRows = cs.Gen.NRows / 2
-			if c.Probe(func() { checkBatches(c, t) }) {
-				cs = t
-			} else {
+			if !fails(t) {
 				break
 			}
+			cs = t
 		}
 		for i := 0; i < 40 && cs.Gen.NRows > 1; i++ {
 			t := cs
 			t.Gen.NRows--
-			if c.Probe(func() { checkBatches(c, t) }) {
-				cs = t
-			} else {
+			if !fails(t) {
 				break
 			}
+			cs = t
 		}
 		checkBatches(c, cs)
 	}
@@ -1818,9 +1848,6 @@ func run(c *core.Ctx) {
 		runBatches(c, cs)
 	}
 
-	if malformedSourceRows > 0 {
-		c.Note("%d conversion cases skipped: ConvertRowGroup(...).Rows() delivers rows that are malformed for the target schema when an optional non-repeated column is added next to a repeated sibling (C12's domain; reported to the main session)", malformedSourceRows)
-	}
 	// a sample of the cases re-evaluated inside coqc
 	c.Vm("From Coq Require Import List Arith Bool.\nFrom PQ Require Import CopyPath.Batches.\nImport ListNotations.")
 	c.Vm("Definition cases : list (bool * list nat * list nat * list nat) := [\n  " + strings.Join(vmBatches, ";\n  ") + "].")
